@@ -499,6 +499,7 @@ func init() {
 			// fillers
 			fillCall := map[*ssa.BasicBlock]bool{}
 			fillLoop := map[*ssa.BasicBlock]bool{}
+			offsetFill := map[*ssa.BasicBlock]bool{}
 			fillerCalls := map[*ssa.Call]bool{}
 			var counter *ssa.Phi
 			for _, ins := range segHdr.Instrs {
@@ -532,6 +533,12 @@ func init() {
 					if isFillLoop(b, tableMk, func(v ssa.Value) bool { return counter == nil || v == ssa.Value(counter) }) != nil {
 						fillLoop[b] = true
 					}
+					// or table[i] = counter + i over the whole table (the counter itself is advanced
+					// by whatever is handed it afterwards and returns the next number)
+					if counter != nil && isOffsetFillLoop(b, tableMk, counter) {
+						fillLoop[b] = true
+						offsetFill[b] = true
+					}
 				}
 			}
 			// counter threading: edges of the header phi
@@ -550,7 +557,19 @@ func init() {
 							threadOK, threadWhy = false, "the counter reaching the next segment does not come from the fill loop"
 						}
 					case *ssa.Extract:
-						if call, ok := x.Tuple.(*ssa.Call); !ok || call.Call.StaticCallee() != segFn || x.Index != 0 {
+						call, ok := x.Tuple.(*ssa.Call)
+						if ok && len(offsetFill) > 0 && call.Call.StaticCallee() != nil && call.Call.StaticCallee() != segFn && x.Index == 0 {
+							// the table was filled as counter+i; the next number comes back from the function
+							// that numbers the copied documents from the counter on
+							cp := paramOfType(call.Call.StaticCallee(), "uint64")
+							if cp == nil || argFor(&call.Call, cp) != ssa.Value(counter) {
+								threadOK, threadWhy = false, fnName(call.Call.StaticCallee())+" is not given the running counter"
+							} else if why := returnsAdvanced(call.Call.StaticCallee(), cp); why != "" {
+								threadOK, threadWhy = false, why
+							}
+							break
+						}
+						if !ok || call.Call.StaticCallee() != segFn || x.Index != 0 {
 							threadOK, threadWhy = false, "the counter reaching the next segment is not the result of mergeStoredAndRemapSegment"
 						}
 					case *ssa.Call:
@@ -1150,4 +1169,73 @@ func pathTakesContainsTrue(blocks []*ssa.BasicBlock, drops *ssa.Parameter, docNu
 		}
 	}
 	return false
+}
+
+// isOffsetFillLoop: loop header b heads a loop over the whole table that
+// stores table[i] = base + i with i the index counting from zero.
+func isOffsetFillLoop(b *ssa.BasicBlock, table ssa.Value, base ssa.Value) bool {
+	for ib := range loopBody(b) {
+		for _, st := range storesIntoSlice(ib, table) {
+			idxV := st.Addr.(*ssa.IndexAddr).Index
+			if !inductionFromZero(idxV, b) {
+				continue
+			}
+			bin, ok := st.Val.(*ssa.BinOp)
+			if !ok || bin.Op != token.ADD {
+				continue
+			}
+			x, y := bin.X, bin.Y
+			if stripConv(x) == idxV {
+				x, y = y, x
+			}
+			if x != base || stripConv(y) != idxV {
+				continue
+			}
+			if ifi, ok := b.Instrs[len(b.Instrs)-1].(*ssa.If); ok {
+				if c, ok := ifi.Cond.(*ssa.BinOp); ok && c.Op == token.LSS && c.X == idxV {
+					if _, ok := numDocsOf(c.Y); ok {
+						return true
+					}
+					if xx, name, ok := lenOrCapOf(c.Y); ok && name == "len" && xx == table {
+						return true
+					}
+				}
+			}
+		}
+	}
+	return false
+}
+
+// returnsAdvanced: on every return of fn that may report success the first
+// result is its counter parameter, possibly advanced (p, p+1 in a loop, …) -
+// never a constant or an unrelated value.  "" when so.
+func returnsAdvanced(fn *ssa.Function, p *ssa.Parameter) string {
+	var derived func(v ssa.Value, seen map[ssa.Value]bool) bool
+	derived = func(v ssa.Value, seen map[ssa.Value]bool) bool {
+		if seen[v] {
+			return true
+		}
+		seen[v] = true
+		switch x := stripConv(v).(type) {
+		case *ssa.Parameter:
+			return x == p
+		case *ssa.Phi:
+			for _, e := range x.Edges {
+				if !derived(e, seen) {
+					return false
+				}
+			}
+			return true
+		case *ssa.BinOp:
+			return x.Op == token.ADD && (derived(x.X, seen) || derived(x.Y, seen))
+		}
+		return false
+	}
+	for _, rb := range maySucceedReturns(fn) {
+		ret := rb.Instrs[len(rb.Instrs)-1].(*ssa.Return)
+		if !derived(resolveLoad(ret.Results[0]), map[ssa.Value]bool{}) {
+			return fnName(fn) + " returns " + exprSig(resolveLoad(ret.Results[0]), 0) + " as the next document number on a successful path, not the number it was given (advanced by what it copied): the numbering of the following segments restarts"
+		}
+	}
+	return ""
 }
